@@ -270,48 +270,31 @@ func findAtom(f an.Facts, lsuffix, op, r string) *an.Atom {
 // tests phase != logging and its true edge cannot reach the call without leaving the loop body
 // (i.e. reaches the call only through the loop header = a later iteration, where the test is repeated).
 func interruptionTestPrecedes(c *an.Ctx, fn *ssa.Function, call ssa.Instruction, logging string) (bool, string) {
-	var test *ssa.If
-	for _, b := range fn.Blocks {
-		if len(b.Instrs) == 0 {
-			continue
-		}
-		ifi, ok := b.Instrs[len(b.Instrs)-1].(*ssa.If)
-		if !ok {
-			continue
-		}
-		e := an.Expr(ifi.Cond)
-		if strings.Contains(e, ".interruption != nil") && b.Dominates(call.Block()) {
-			// innermost (closest) dominating test
-			if test == nil || test.Block().Dominates(b) {
-				test = ifi
-			}
-		}
+	// Within one iteration of the rule loop every path from the loop header to r.Evaluate must take an edge on
+	// which either "no interruption is recorded" or "this is the logging phase" holds; the order and nesting of
+	// the two tests, and whether the loop is left by break or by a labelled break, do not matter.
+	lp := an.InnermostLoop(call.Block())
+	if lp == nil {
+		return false, "r.Evaluate is not inside a loop"
 	}
-	if test == nil {
-		return false, "no branch on tx.interruption != nil dominates r.Evaluate inside Eval"
-	}
-	tb := test.Block()
-	// the interrupted edge
-	inter := tb.Succs[0]
-	// From the interrupted edge, a path to the call that does not go back through the test block
-	// must pass an edge on which phase == logging holds.
+	nTests := 0
 	w := an.FindPath(an.PathQuery{
 		Fn:         fn,
-		StartBlock: inter,
+		StartBlock: lp.Header,
 		Target:     func(in ssa.Instruction) bool { return in == call },
-		Stop: func(in ssa.Instruction) bool {
-			return false
-		},
 		PruneEdge: func(b *ssa.BasicBlock, si int) bool {
-			if b.Succs[si] == tb {
-				return true // next iteration re-tests
+			if !lp.Blocks[b.Succs[si]] || (b.Succs[si] == lp.Header) {
+				return true // leaves the loop, or starts the next iteration (which re-tests)
 			}
 			ifi, ok := b.Instrs[len(b.Instrs)-1].(*ssa.If)
 			if !ok {
 				return false
 			}
-			// edge on which "phase == logging" holds is allowed to reach the call: prune it from the search
 			for _, a := range an.CondAtoms(ifi.Cond, si == 0) {
+				if strings.HasSuffix(a.L, ".interruption") && a.Op == "==" && a.R == "nil" {
+					nTests++
+					return true
+				}
 				if a.L == "phase" && a.Op == "==" && a.R == logging {
 					return true
 				}
@@ -319,16 +302,11 @@ func interruptionTestPrecedes(c *an.Ctx, fn *ssa.Function, call ssa.Instruction,
 			return false
 		},
 	})
-	if inter == call.Block() || inter.Dominates(call.Block()) && w != nil && len(inter.Preds) == 1 {
-		// interrupted edge leads straight to the call
-	}
 	if w != nil {
-		return false, "a path from the 'interrupted' edge reaches r.Evaluate without phase == PhaseLogging: " + strings.Join(c.P.TrailString(w), " -> ")
+		return false, "a path of one iteration reaches r.Evaluate without having established 'no interruption recorded' or 'logging phase': " + strings.Join(c.P.TrailString(w), " -> ")
 	}
-	// also: the test must be inside the loop (re-evaluated per iteration): the call block must be able to reach the test block again
-	back := an.FindPath(an.PathQuery{Fn: fn, After: call, Target: func(in ssa.Instruction) bool { return in == ssa.Instruction(test) }})
-	if back == nil {
-		return false, "the interruption test is not re-evaluated after r.Evaluate (it is outside the rule loop)"
+	if nTests == 0 {
+		return false, "no branch on tx.interruption lies between the loop header and r.Evaluate"
 	}
 	return true, ""
 }
